@@ -58,6 +58,7 @@ func C13(c *Ctx) {
 	r.Rule("C13-d", "every condition-less `for { … }` loop in the generator that consumes input through a reader (ReadRune / ReadByte / Read…) tests the reader's error result and leaves the loop on it: otherwise the loop spins forever once the input is exhausted")
 	r.Rule("C13-e", "pair invariant of CharClassMatcher.Ranges (low/high pairs): every store to a Ranges field keeps the length even — nil, a copy or concatenation of pair slices, a two-element append, or a local slice built only by two-element appends; the only single-element appends are the start/end pair of the range state machine in CharClassMatcher.parse. The stride-2 loops that read Ranges[i+1] (optimizer, builder, runtime) rely on it")
 	r.Rule("C13-f", "every non-constant index into a fixed-size array in the generator is provably in range: the index is a variable bounded by an enclosing `< len` condition (if or loop), or unicode.ToUpper/ToLower of such a variable when the bound is 128 (case mapping of an ASCII rune stays ASCII; unicode.SimpleFold does not)")
+	r.Rule("C13-g", "counter loops of the generator are well-formed: a loop whose condition is `i < len(X)` (or `i < K`, `j < K && …`) starts from a value not above the bound's domain and steps upwards (i++, i += k); a loop with condition `i >= 0` steps downwards; so each terminates and indexes X[i] (and X[i+1] for stride 2 over a pair list) in range")
 	r.Rule("C13-c", "main passes Recover(!*noRecoverFlag) to ParseReader")
 
 	g := c.G()
@@ -105,6 +106,7 @@ func C13(c *Ctx) {
 	c13ReaderLoops(c, g)
 	c13RangePairs(c, g)
 	c13ArrayBounds(c, g)
+	c13CounterLoops(c, g)
 	c13Exit(c, g)
 	if c.Thorough() {
 		c13CrossRef(c, g)
@@ -674,13 +676,23 @@ func c13Exit(c *Ctx, g *load.G) {
 					}
 					n++
 					ok := false
-					for _, later := range list[i+1:] {
-						if as2, ok2 := later.(*ast.AssignStmt); ok2 && assignsErrFromCall(as2) {
-							break
-						}
-						if is, ok2 := later.(*ast.IfStmt); ok2 && nospace(is.Cond) == "err!=nil" && endsInNonZeroExit(is.Body) {
-							ok = true
-							break
+					// the statement right after the call must test the error; if that branch only reports, a later
+					// `if err != nil { …; exit(k) }` must follow before err is assigned again
+					if i+1 < len(list) {
+						if is, ok2 := list[i+1].(*ast.IfStmt); ok2 && is.Init == nil && nospace(is.Cond) == "err!=nil" {
+							if endsInNonZeroExit(is.Body) {
+								ok = true
+							} else {
+								for _, later := range list[i+2:] {
+									if as2, ok3 := later.(*ast.AssignStmt); ok3 && assignsErrFromCall(as2) {
+										break
+									}
+									if is2, ok3 := later.(*ast.IfStmt); ok3 && is2.Init == nil && nospace(is2.Cond) == "err!=nil" && endsInNonZeroExit(is2.Body) {
+										ok = true
+										break
+									}
+								}
+							}
 						}
 					}
 					r.Check(ok, "C13-b", fmt.Sprintf("G.main.%s:error-branch#%d(%s)", fn, n, calleeOf(x)), "", g.Where(x.Pos()), "error ⇒ exit(non-zero)", "the error of "+calleeOf(x)+" is not followed by `if err != nil { …; exit(k>0) }`")
@@ -718,6 +730,44 @@ func c13Exit(c *Ctx, g *load.G) {
 	sort.Strings(bad)
 	r.Check(len(bad) == 0 && nExit >= 10, "C13-b", "G.main:exit-statuses", "", "main.go", fmt.Sprintf("%d exit calls: constants, zero only for -h/-help", nExit), strings.Join(bad, "; "))
 	r.MinRule("C13-b", 9)
+	// flag defaults and the guards of the two optional phases
+	var badFlags []string
+	ast.Inspect(mf.Body, func(n ast.Node) bool {
+		ce, ok := n.(*ast.CallExpr)
+		if !ok || len(ce.Args) != 3 {
+			return true
+		}
+		switch callName(ce) {
+		case "fs.Bool":
+			if nospace(ce.Args[1]) != "false" {
+				badFlags = append(badFlags, "flag "+nospace(ce.Args[0])+" defaults to "+nospace(ce.Args[1]))
+			}
+		case "fs.String":
+			want := map[string]string{`"o"`: `""`, `"receiver-name"`: `"c"`}[nospace(ce.Args[0])]
+			if want != "" && nospace(ce.Args[1]) != want {
+				badFlags = append(badFlags, "flag "+nospace(ce.Args[0])+" defaults to "+nospace(ce.Args[1]))
+			}
+		}
+		return true
+	})
+	for _, ce := range callsIn(mf.Body) {
+		switch callName(ce) {
+		case "builder.BuildParser":
+			if gs := strings.Join(guardsOf(mf.Body, ce.Pos()), ";"); gs != "!*noBuildFlag" {
+				badFlags = append(badFlags, "the parser is built under ["+gs+"] instead of exactly !*noBuildFlag")
+			}
+		case "ast.Optimize":
+			if gs := strings.Join(guardsOf(mf.Body, ce.Pos()), ";"); gs != "!*noBuildFlag;*optimizeGrammar" {
+				badFlags = append(badFlags, "the grammar optimizer runs under ["+gs+"] instead of exactly *optimizeGrammar (inside !*noBuildFlag)")
+			}
+		case "imports.Process":
+			if gs := strings.Join(guardsOf(mf.Body, ce.Pos()), ";"); gs != "!*noBuildFlag" {
+				badFlags = append(badFlags, "formatting runs under ["+gs+"]")
+			}
+		}
+	}
+	sort.Strings(badFlags)
+	r.Check(len(badFlags) == 0, "C13-b", "G.main:flag-defaults-and-phase-guards", "", "main.go", "every boolean flag defaults to false; build iff !-x; optimizer iff -optimize-grammar", strings.Join(badFlags, "; ")+": without being asked the tool would skip the build (exit 0 without a parser) or rewrite the grammar")
 	// ---- c
 	okRec := false
 	for _, ce := range callsIn(mf.Body) {
@@ -1031,4 +1081,90 @@ func c13ArrayBounds(c *Ctx, g *load.G) {
 		}
 	}
 	r.Min("C13-f array index sites", 4, n)
+}
+
+// c13CounterLoops: direction and strictness of counter loops.
+func c13CounterLoops(c *Ctx, g *load.G) {
+	r := c.R
+	n := 0
+	for _, sfx := range []string{"", "ast", "builder"} {
+		p := g.Pkg(sfx)
+		for _, fd := range load.AllFuncDecls(p) {
+			if fd.Body == nil || strings.HasSuffix(g.Fset.Position(fd.Pos()).Filename, "/pigeon.go") {
+				continue
+			}
+			k := 0
+			ast.Inspect(fd.Body, func(nd ast.Node) bool {
+				f, ok := nd.(*ast.ForStmt)
+				if !ok || f.Cond == nil || f.Post == nil {
+					return true
+				}
+				cond := nospace(f.Cond)
+				first := strings.Split(cond, "&&")[0]
+				var iv, rel string
+				for _, op := range []string{"<=", ">=", "<", ">"} {
+					if i := strings.Index(first, op); i > 0 {
+						iv, rel = first[:i], op
+						break
+					}
+				}
+				if iv == "" {
+					return true
+				}
+				k++
+				n++
+				up := false
+				step := ""
+				switch post := f.Post.(type) {
+				case *ast.IncDecStmt:
+					if nospace(post.X) == iv {
+						up = post.Tok == token.INC
+						step = post.Tok.String()
+					}
+				case *ast.AssignStmt:
+					if nospace(post.Lhs[0]) == iv {
+						up = post.Tok == token.ADD_ASSIGN
+						step = post.Tok.String() + nospace(post.Rhs[0])
+					}
+				}
+				construct := fmt.Sprintf("G.%s.%s:counter-loop#%d(%s)", p.Types.Name(), fd.Name.Name, k, cond)
+				var bad []string
+				if step == "" {
+					bad = append(bad, "the post statement does not step the loop variable "+iv)
+				}
+				switch rel {
+				case "<":
+					if !up {
+						bad = append(bad, "condition "+first+" with a downward step "+step+": the loop does not terminate (or indexes below 0)")
+					}
+				case "<=":
+					if strings.Contains(first, "len(") {
+						bad = append(bad, "condition "+first+" lets the index reach len(…): out of range")
+					}
+					if !up {
+						bad = append(bad, "downward step with an upper-bound condition")
+					}
+				case ">=", ">":
+					if up {
+						bad = append(bad, "condition "+first+" with an upward step "+step+": the loop does not terminate")
+					}
+				}
+				// stride-2 loops over a pair list index X[i+1]: the step must be += 2
+				usesNext := false
+				ast.Inspect(f.Body, func(m ast.Node) bool {
+					if ix, ok := m.(*ast.IndexExpr); ok && nospace(ix.Index) == iv+"+1" {
+						usesNext = true
+					}
+					return true
+				})
+				if usesNext && step != "+=2" {
+					bad = append(bad, "the body reads element "+iv+"+1 but the step is "+step+" (pairs need += 2)")
+				}
+				sort.Strings(bad)
+				r.Check(len(bad) == 0, "C13-g", construct, "", g.Where(f.Pos()), "bounded and stepping towards its bound ("+step+")", strings.Join(bad, "; "))
+				return true
+			})
+		}
+	}
+	r.Min("C13-g counter loops", 8, n)
 }
